@@ -24,6 +24,7 @@ RACE=""
 case "$lc" in c01|c12|c16|c17|c19) export GOEXPERIMENT=synctest ;; esac
 case "$lc" in c13) RACE="-race" ;; esac
 go build -tags verif $RACE -o "$SCR/bin" "./cmd/$lc" || { echo "BUILD FAILED"; exit 2; }
+if [ -f "cmd/$lc/extra_build.sh" ]; then BIN="$SCR/bin" bash "cmd/$lc/extra_build.sh" || { echo "HELPER BUILD FAILED"; exit 2; }; fi
 export VERIF_ROOT="$SCR" VERIF_SCRATCH="$SCR/scratch" VERIF_BIN="$SCR/bin"; mkdir -p "$VERIF_SCRATCH"
 timeout -s QUIT 900 "$SCR/bin" --tier "${MUT_TIER:-quick}" > "$SCR/out.txt" 2>&1
 rc=$?
